@@ -231,6 +231,10 @@ func firstLine(s string) string {
 	return s
 }
 
+// KeepState makes Taint keep the analyzer state in Result.State (large: holds the whole flow graph and
+// the pointer analysis). Off by default.
+var KeepState = false
+
 var stdoutMu sync.Mutex
 
 // quiet runs f with os.Stdout redirected to /dev/null (the tool logs to os.Stdout).
@@ -286,7 +290,9 @@ func (p *Program) Taint(o Opts) (res *Result) {
 		if err != nil {
 			res.Err = err.Error()
 		}
-		res.State = ar.State
+		if KeepState {
+			res.State = ar.State
+		}
 		if ar.TaintFlows == nil {
 			return
 		}
